@@ -356,7 +356,7 @@ func init() {
 		},
 		Cases: func(tier string) int {
 			if tier == "thorough" {
-				return 16000
+				return 48000
 			}
 			return 640
 		},
